@@ -1,6 +1,19 @@
 // C20 harness: drives a real TeamCityTestOutput through a private TestRegistry with scripted tests and prints the byte stream that
 // reached the sink and how often each test body was executed.
-// Scenario:  [ :con <sink> <verbosity> ] [ :opt <run-ignored 0|1> <passes> ] <dur> <nfilters> { <name> } <ntests> { <group> <name> <file> <line> <ignored> <nstmts> { :p <text> | :f <file> <line> <msg> | :x <file> <line> <msg> } }
+// Scenario:  [ :con <sink> <verbosity> ] [ :opt <run-ignored 0|1> <passes> ] [ :plug <mock 0|1> <leak 0|1> ] <dur> <nfilters> { <name> } <ntests> { <group> <name> <file> <line> <ignored> <nstmts> { <stmt> } }
+//            stmt = :p <text> | :f <file> <line> <msg> | :x <file> <line> <msg>
+//                 | :S <stage>      the statements that follow belong to stage 0 pre-test action of a plugin, 1 setup, 2 body (the default), 3 teardown, 4 post-test action
+//                 | :sep <code>     the shell is run in a separate process (setRunInSeperateProcess); the fork / waitpid seams are scripted: the "child" 1 exits
+//                                   with 0, 2 exits with 1, 3 is killed by signal 11 (no child exists; nothing of the test is executed in this process)
+//                 | :k <kind> <copies> <stop> <file> <line> <msg>   a failure object built by 2 TestFailure(test, msg), 3 TestFailure(test, file, line),
+//                                   4 TestFailure(test, file, line, msg), 5 a derived class on the 3-argument constructor that then sets the text (FailFailure),
+//                                   6 a derived class on the 2-argument constructor that then sets the text; copied <copies> times by the copy constructor;
+//                                   handed to UtestShell::addFailure (stop 0) / failWith (stop 1, leaves the stage) inside a test, to TestResult::addFailure in a plugin action
+//                 | :e <std 0|1> <what>   throw std::runtime_error(what) / throw 42
+//                 | :m <name>       mock().expectOneCall(name), never fulfilled      | :u <name>   mock().actualCall(name), not expected
+//                 | :l <size>       a block of <size> bytes allocated on the leak plugin's detector and not released during the test
+//            :plug = the real MockSupportPlugin / a real MemoryLeakWarningPlugin (on a private MemoryLeakDetector) installed after the harness' own plugin,
+//            which performs the stage 0 / stage 4 statements of the current test in its preTestAction / postTestAction
 //            sink = where the stream is observed: 0 (default) a subclass of TeamCityTestOutput that overrides printBuffer / flush (a test
 //              double below the writer); 1 the REAL TeamCityTestOutput on the real ConsoleTestOutput::printBuffer / flush, with the
 //              PlatformSpecificFPuts / PlatformSpecificFlush seams replaced by collectors (what is handed to the platform for stdout);
@@ -15,8 +28,11 @@
 //            filters = strict name filters (-sn): with at least one, only tests whose name equals one of them run;
 //            :p = TestResult::print(text), :f = addFailure (test continues), :x = fail() (test terminates)
 //            :raw <bytes> / :rawv <bytes>  -- parser differential only: answered by the same line (no library code involved)
-// Observation: <stream> <n> { <count> }   everything that reached the sink, in order; then for every pass, for every
-//            registered test in order, how often testBody() of that test was entered during that pass (n = passes * ntests).
+// Observation: <stream> <n> { <count> } <k> { <ordinal> }   everything that reached the sink, in order; then for every pass, for every
+//            registered test in order, how often testBody() of that test was entered during that pass (n = passes * ntests); then the ordinals
+//            (0-based, over all calls of TestResult::addFailure of the run) of the failures whose text was produced by the library and not by a
+//            statement of the scenario (unexpected exception, mock failure, leak report, separate process): checks/C20.py does not compare the
+//            wording of those.
 #include "CppUTest/TestHarness.h"
 #include "CppUTest/TestRegistry.h"
 #include "CppUTest/TestResult.h"
@@ -24,16 +40,24 @@
 #include "CppUTest/TestFilter.h"
 #include "CppUTest/TeamCityTestOutput.h"
 #include "CppUTest/PlatformSpecificFunctions.h"
+#include "CppUTest/TestPlugin.h"
+#include "CppUTest/MemoryLeakDetector.h"
+#include "CppUTest/MemoryLeakWarningPlugin.h"
+#include "CppUTest/TestMemoryAllocator.h"
+#include "CppUTestExt/MockSupport.h"
+#include "CppUTestExt/MockSupportPlugin.h"
 #include "hlib.h"
 #include <memory>
+#include <stdexcept>
 #include <unistd.h>
 #include <fcntl.h>
 #include <sys/stat.h>
 #include <sys/mman.h>
 using namespace hl;
 
-struct Stmt { char kind; std::string text, file; size_t line; };
-struct TestDef { std::string group, name, file; size_t line; bool ignored; std::vector<Stmt> body; };
+struct Stmt { char kind; std::string text, file; size_t line; int fkind, copies; bool stop; };
+struct TestDef { std::string group, name, file; size_t line; bool ignored; int sep; std::vector<Stmt> stage[5]; };
+enum { ST_PRE = 0, ST_SETUP = 1, ST_BODY = 2, ST_TEARDOWN = 3, ST_POST = 4 };
 
 static unsigned long now_ms = 0;
 static unsigned long dur_ms = 0;
@@ -42,22 +66,69 @@ static unsigned long myMillis() { return now_ms; }
 static size_t cur_pass = 0, n_tests = 0;
 static std::vector<unsigned long> exec_counts;      // [pass * n_tests + index]
 
-struct HasResult { virtual TestResult* res() = 0; virtual ~HasResult() {} };
+struct HasResult { virtual TestResult* res() = 0; virtual const TestDef* definition() = 0; virtual ~HasResult() {} };
+
+// a failure class of the kind the library's own derived classes are: built on the two-argument constructor, the text set afterwards
+class ShortDerivedFailure : public TestFailure
+{
+public:
+    ShortDerivedFailure(UtestShell* test, const SimpleString& text) : TestFailure(test, "text of the base class, replaced by the derived class") { message_ = text; }
+};
+
+// the addFailure seam: how many failures the next calls of TestResult::addFailure may attribute to a statement of the scenario
+static unsigned long scripted_pending = 0;
+static unsigned long failure_ordinal = 0;
+static std::vector<unsigned long> library_made;
+static const TestDef* current_def = NULLPTR;
+static MemoryLeakDetector* leak_detector = NULLPTR;
+static std::vector<char*> leaked_blocks;
+
+// one statement; plugin_result != NULL: executed by a plugin's pre / post action (the failure goes to the TestResult directly)
+static void exec_stmt(const Stmt& s, UtestShell* sh, TestResult* res, TestResult* plugin_result)
+{
+    switch (s.kind) {
+    case 'p': res->print(s.text.c_str()); break;
+    case 'f': scripted_pending++; sh->addFailure(FailFailure(sh, s.file.c_str(), s.line, s.text.c_str())); break;
+    case 'x': scripted_pending++; sh->fail(s.text.c_str(), s.file.c_str(), s.line); break;
+    case 'k': {
+        std::unique_ptr<TestFailure> f;
+        if (s.fkind == 2) f.reset(new TestFailure(sh, SimpleString(s.text.c_str())));
+        else if (s.fkind == 3) f.reset(new TestFailure(sh, s.file.c_str(), s.line));
+        else if (s.fkind == 4) f.reset(new TestFailure(sh, s.file.c_str(), s.line, SimpleString(s.text.c_str())));
+        else if (s.fkind == 5) f.reset(new FailFailure(sh, s.file.c_str(), s.line, SimpleString(s.text.c_str())));
+        else f.reset(new ShortDerivedFailure(sh, SimpleString(s.text.c_str())));
+        for (int c = 0; c < s.copies; c++) { std::unique_ptr<TestFailure> g(new TestFailure(*f)); f.swap(g); }
+        scripted_pending++;
+        if (plugin_result) plugin_result->addFailure(*f);
+        else if (s.stop) { TestFailure keep(*f); f.reset(); sh->failWith(keep); }     // failWith leaves by an exception: nothing of ours may stay allocated
+        else sh->addFailure(*f);
+        break; }
+    case 'e':
+        if (s.fkind) throw std::runtime_error(s.text);
+        throw 42;
+    case 'm': mock().expectOneCall(s.text.c_str()); break;
+    case 'u': mock().actualCall(s.text.c_str()); break;
+    case 'l':
+        if (leak_detector) leaked_blocks.push_back(leak_detector->allocMemory(defaultNewAllocator(), s.line ? s.line : 1, "leak.cpp", 7));
+        break;
+    default: break;
+    }
+}
+
 class ScriptTest : public Utest
 {
 public:
     UtestShell* sh; HasResult* hr; const TestDef* def; size_t index;
     ScriptTest(UtestShell* s, HasResult* h, const TestDef* d, size_t i) : sh(s), hr(h), def(d), index(i) {}
+    void run_stage(int st) { for (const Stmt& s : def->stage[st]) exec_stmt(s, sh, hr->res(), NULLPTR); }
+    void setup() CPPUTEST_OVERRIDE { run_stage(ST_SETUP); }
     void testBody() CPPUTEST_OVERRIDE
     {
         exec_counts[cur_pass * n_tests + index]++;
         now_ms += dur_ms;
-        for (const Stmt& s : def->body) {
-            if (s.kind == 'p') hr->res()->print(s.text.c_str());
-            else if (s.kind == 'f') sh->addFailure(FailFailure(sh, s.file.c_str(), s.line, s.text.c_str()));
-            else sh->fail(s.text.c_str(), s.file.c_str(), s.line);
-        }
+        run_stage(ST_BODY);
     }
+    void teardown() CPPUTEST_OVERRIDE { run_stage(ST_TEARDOWN); }
 };
 // the same scripted shell on top of UtestShell (TEST) and of IgnoredUtestShell (IGNORE_TEST): nothing but createTest is overridden,
 // so willRun / runOneTest / setRunIgnored are the library's
@@ -67,10 +138,61 @@ public:
     const TestDef* def; size_t index;
     Scripted(const TestDef* d, size_t i) : Base(d->group.c_str(), d->name.c_str(), d->file.c_str(), d->line), def(d), index(i) {}
     TestResult* res() CPPUTEST_OVERRIDE { return this->getTestResult(); }
+    const TestDef* definition() CPPUTEST_OVERRIDE { return def; }
     Utest* createTest() CPPUTEST_OVERRIDE { return new ScriptTest(this, this, def, index); }
 };
 typedef Scripted<UtestShell> ScriptShell;
 typedef Scripted<IgnoredUtestShell> IgnoredScriptShell;
+
+// the harness' own plugin: the stage 0 / stage 4 statements of the test at hand, reported the way MemoryLeakWarningPlugin reports
+// (a TestFailure built from the shell, handed to TestResult::addFailure)
+class ScriptPlugin : public TestPlugin
+{
+public:
+    ScriptPlugin() : TestPlugin("ScriptPlugin") {}
+    void act(int st, UtestShell& test, TestResult& result)
+    {
+        HasResult* h = dynamic_cast<HasResult*>(&test);
+        if (!h) return;
+        for (const Stmt& s : h->definition()->stage[st]) exec_stmt(s, &test, &result, &result);
+    }
+    void preTestAction(UtestShell& test, TestResult& result) CPPUTEST_OVERRIDE { act(ST_PRE, test, result); }
+    void postTestAction(UtestShell& test, TestResult& result) CPPUTEST_OVERRIDE { act(ST_POST, test, result); }
+};
+
+class SilentLeakFailure : public MemoryLeakFailure
+{
+public:
+    void fail(char*) CPPUTEST_OVERRIDE {}
+};
+
+// TestResult with the addFailure seam and a note of the test at hand (for the scripted fork / waitpid)
+class SeamResult : public TestResult
+{
+public:
+    SeamResult(TestOutput& o) : TestResult(o) {}
+    void currentTestStarted(UtestShell* test) CPPUTEST_OVERRIDE
+    {
+        HasResult* h = dynamic_cast<HasResult*>(test);
+        current_def = h ? h->definition() : NULLPTR;
+        TestResult::currentTestStarted(test);
+    }
+    void addFailure(const TestFailure& failure) CPPUTEST_OVERRIDE
+    {
+        if (scripted_pending > 0) scripted_pending--; else library_made.push_back(failure_ordinal);
+        failure_ordinal++;
+        TestResult::addFailure(failure);
+    }
+};
+
+// -p without a child: fork "succeeds" in the parent, waitpid reports the scripted end of the child
+static int scriptedFork(void) { return 4242; }
+static int scriptedWaitPid(int pid, int* status, int)
+{
+    int code = current_def ? current_def->sep : 1;
+    *status = code == 2 ? (1 << 8) : code == 3 ? 11 : 0;       // exited with 1 / killed by signal 11 / exited with 0
+    return pid;
+}
 
 class CapturingTeamCityOutput : public TeamCityTestOutput
 {
@@ -121,6 +243,8 @@ int main()
 {
     void (*const realFPuts)(const char*, PlatformSpecificFile) = PlatformSpecificFPuts;
     void (*const realFlush)(void) = PlatformSpecificFlush;
+    int (*const realFork)(void) = PlatformSpecificFork;
+    int (*const realWaitPid)(int, int*, int) = PlatformSpecificWaitPid;
     GetPlatformSpecificTimeInMillis = myMillis;
     Toks t; Out o;
     while (readline(t)) {
@@ -133,6 +257,8 @@ int main()
         if (t.peek() == ":con") { t.next(); sink = t.n(); verbosity = t.n(); if (sink < 0 || sink > 2) sink = 0; }
         bool ri = false; int passes = 1;
         if (t.peek() == ":opt") { t.next(); ri = t.u() != 0; passes = t.n(); if (passes < 0 || passes > 8) passes = 8; }
+        bool with_mock = false, with_leak = false;
+        if (t.peek() == ":plug") { t.next(); with_mock = t.u() != 0; with_leak = t.u() != 0; }
         dur_ms = (unsigned long)t.u(); now_ms = 0;
         int nf = t.n();
         std::vector<std::string> fnames((size_t)nf);
@@ -142,20 +268,39 @@ int main()
         for (int i = 0; i < n; i++) {
             TestDef& d = defs[(size_t)i];
             t.bytes(d.group); t.bytes(d.name); t.bytes(d.file); d.line = (size_t)t.u(); d.ignored = t.u() != 0;
-            int m = t.n();
+            d.sep = 0;
+            int m = t.n(), stage = ST_BODY;
             for (int k = 0; k < m; k++) {
-                Stmt s; std::string tag = t.sym(); s.kind = tag[0]; s.line = 0;
-                if (s.kind == 'p') t.bytes(s.text);
+                Stmt s; std::string tag = t.sym(); s.kind = tag[0]; s.line = 0; s.fkind = 0; s.copies = 0; s.stop = false;
+                if (tag == "S") { stage = t.n(); if (stage < 0 || stage > 4) stage = ST_BODY; continue; }
+                if (tag == "sep") { d.sep = t.n(); continue; }
+                if (s.kind == 'p' || s.kind == 'm' || s.kind == 'u') t.bytes(s.text);
+                else if (s.kind == 'e') { s.fkind = t.n(); t.bytes(s.text); }
+                else if (s.kind == 'l') s.line = (size_t)t.u();
+                else if (s.kind == 'k') { s.fkind = t.n(); s.copies = t.n(); s.stop = t.u() != 0; t.bytes(s.file); s.line = (size_t)t.u(); t.bytes(s.text); if (s.copies > 64) s.copies = 64; }
                 else { t.bytes(s.file); s.line = (size_t)t.u(); t.bytes(s.text); }
-                d.body.push_back(s);
+                d.stage[stage].push_back(s);
             }
         }
         std::string stream;
         {
             std::vector<std::unique_ptr<UtestShell> > shells;
+            SilentLeakFailure leak_reporter;
+            MemoryLeakDetector detector(&leak_reporter);
+            detector.enable();
+            leak_detector = &detector; leaked_blocks.clear();
+            ScriptPlugin own_plugin;
+            MockSupportPlugin mock_plugin;
+            MemoryLeakWarningPlugin leak_plugin("LeakPlugin", &detector);
+            scripted_pending = 0; failure_ordinal = 0; library_made.clear(); current_def = NULLPTR;
+            PlatformSpecificFork = scriptedFork; PlatformSpecificWaitPid = scriptedWaitPid;
             TestRegistry reg;
+            reg.installPlugin(&own_plugin);                      // as a user's main() does: own plugins first ...
+            if (with_mock) reg.installPlugin(&mock_plugin);
+            if (with_leak) reg.installPlugin(&leak_plugin);      // ... the leak plugin last (CommandLineTestRunner): first before a test, last after it
             for (int i = 0; i < n; i++)
                 shells.emplace_back(defs[(size_t)i].ignored ? (UtestShell*)new IgnoredScriptShell(&defs[(size_t)i], (size_t)i) : (UtestShell*)new ScriptShell(&defs[(size_t)i], (size_t)i));
+            for (int i = 0; i < n; i++) if (defs[(size_t)i].sep) shells[(size_t)i]->setRunInSeperateProcess();
             for (int i = n - 1; i >= 0; i--) reg.addTest(shells[(size_t)i].get());
             std::vector<std::unique_ptr<TestFilter> > filters;
             TestFilter* chain = NULLPTR;
@@ -176,17 +321,24 @@ int main()
                 if (verbosity >= 2) out.verbose(TestOutput::level_veryVerbose);
                 for (cur_pass = 0; cur_pass < (size_t)passes; cur_pass++) {
                     out.printTestRun(cur_pass + 1, (size_t)passes);
-                    TestResult result(out);
+                    SeamResult result(out);
                     reg.runAllTests(result);
                 }
                 if (sink == 0) stream = static_cast<CapturingTeamCityOutput&>(out).captured;
             }   // the output object is gone: whatever it still held has been written or is lost
             if (sink == 1) { PlatformSpecificFPuts = realFPuts; PlatformSpecificFlush = realFlush; stream = seam_bytes; }
             if (sink == 2) stream = fd1_end();
+            PlatformSpecificFork = realFork; PlatformSpecificWaitPid = realWaitPid;
+            mock().clear();
+            for (char* b : leaked_blocks) detector.deallocMemory(defaultNewAllocator(), b);
+            leaked_blocks.clear(); leak_detector = NULLPTR;
         }
         o << hbytes(stream.data(), stream.size()) << hx(exec_counts.size());
         for (unsigned long c : exec_counts) o << hx(c);
+        o << hx(library_made.size());
+        for (unsigned long c : library_made) o << hx(c);
         o.flush();
     }
-    return 0;
+    fflush(stdout);
+    _exit(0);       // no static destructors: the harness' containers would be released through allocators the library has already destroyed
 }
